@@ -10,7 +10,7 @@ pools: `core` = constructs the C back end is expected to translate; each other p
 from .. import lib_fm_transpile as T
 
 CORE = ('lb', 'step', 'lvafter', 'idiv', 'mod', 'intfn', 'sign', 'ipow', 'conv', 'while', 'select')
-POOLS = ('core', 'boundmod', 'fndiv', 'intcast', 'exitcycle', 'section', 'selneg')
+POOLS = ('core', 'boundmod', 'fndiv', 'intcast', 'exitcycle', 'section', 'selneg', 'idxdiv')
 QUICK = {'core': 24, '*': 4}
 THOROUGH = {'core': 900, '*': 60}
 
